@@ -170,8 +170,10 @@ func (t *lpTr) leanTy(ty types.Type) string {
 	if lpIsBytes(ty) {
 		return "Bytes"
 	}
-	if s := lpExtTy(ty); s != "" {
-		return s
+	if t.fl() {
+		if s := lpExtTy(ty); s != "" {
+			return s
+		}
 	}
 	if b, ok := ty.Underlying().(*types.Basic); ok {
 		switch b.Kind() {
@@ -543,7 +545,7 @@ func (t *lpTr) bytesExpr(e ast.Expr, b *lpBinds) string {
 					return n
 				}
 			}
-			if _, bi := t.info.Uses[id].(*types.Builtin); bi && len(x.Args) == 3 && isByteSliceNonString(t.info.TypeOf(x.Args[0])) && t.makeFor != nil && t.neverResliced(t.makeFor) {
+			if _, bi := t.info.Uses[id].(*types.Builtin); bi && len(x.Args) == 3 && t.fl() && isByteSliceNonString(t.info.TypeOf(x.Args[0])) && t.makeFor != nil && t.neverResliced(t.makeFor) {
 				t.intExpr(x.Args[2], &lpBinds{}) // the capacity must at least be an expression of the language
 				n := t.tmp()
 				b.add(fmt.Sprintf("let %s ← makeBytes %s", n, t.intExpr(x.Args[1], b)))
@@ -1815,7 +1817,7 @@ func (g *lpGen) translate(f *types.Func) (res *lpFunc, why string) {
 	}
 	as := t.assigned(fd.Body)
 	for _, v := range allParams {
-		if isNamed(v.Type(), "", "error") {
+		if t.fl() && isNamed(v.Type(), "", "error") {
 			t.errParam[v] = true
 		}
 		lt := t.varTy(v)
